@@ -198,7 +198,7 @@ def dispatch (op : String) (a : Args) : Option String :=
   | "snp" => do
       pure (jExcept (snp val nmOf (← a.nat "k") (← a.bool "contents") (← a.items "items") FUEL))
   | "rnp" => do
-      pure (jExcept (rnp val nmOf (← a.nat "k") (← a.bool "contents") (← a.items "items") FUEL))
+      pure (jExcept (rnpF val nmOf (← a.nat "k") (← a.bool "contents") (← a.items "items") FUEL))
   | "cg" => do
       let cfg : CgCfg := { obj := (← a.get "obj" >>= parseObjective), useLb := (← a.bool "lb"),
                            useFast := (← a.bool "fast"), useH3 := (← a.bool "h3"), useSeen := (← a.bool "seen") }
